@@ -182,7 +182,7 @@ def run(ck, F):
                 continue
             base_objs = set(st.heap)
             status, res = ppgraph.run_entry(F, S, fn, st, obj)
-            inst = f'{kind}({contracts.short(cls)})'
+            inst = f'{kind}({contracts.short(cls)}{ppgraph.variant_tag(prov)})'
             if status != 'ok':
                 if status == 'cycle':
                     ck.note(f'{inst}: dispatch cycle (reported by C18)')
@@ -230,6 +230,32 @@ def run(ck, F):
     ck.check(R6, 'construction sites', len(sites) == 1, f'the location printer is created in {sites}', loc='src/io.cxx')
     callers = [fid for fid in pf if any((n.get('callee') or {}).get('id', '').startswith('ipr::xpr::Location_printer::print') for n in walk(pf[fid].get('body')) if n.get('k') == 'call')]
     ck.extra['location_print_callers'] = sorted(callers)
+
+    # ---------------------------------------------------------------- client options stay the client's
+    R7 = ck.rule('C17.options-client-only', 'the public switches of Printer (print_locations) are read, never written, by the '
+                 'library: what is printed depends on the value the client set, throughout a print and after it', floor=1)
+    options = [fl['name'] for fl in pr['fields'] if fl['access'] == 'public' and fl['t'] in ('bool', 'int', 'unsigned int')]
+    if 'print_locations' not in options:
+        raise AnalysisBroken('anchor vanished: public switch Printer::print_locations')
+    ASSIGN = ('=', '+=', '-=', '|=', '&=', '^=', '*=', '/=', '<<=', '>>=')
+    for opt in options:
+        writers, readers_n = [], 0
+        for fid, f in F.fn.items():
+            for n in walk(f.get('body')):
+                if n.get('k') == 'member' and n.get('name') == opt and n.get('cls') == 'ipr::Printer':
+                    readers_n += 1
+                tgt = None
+                if n.get('k') == 'binop' and n.get('op') in ASSIGN:
+                    tgt = strip_casts(n.get('l') or {})
+                elif n.get('k') == 'unop' and n.get('op') in ('++', '--', 'post++', 'post--', '++pre', '--pre'):
+                    tgt = strip_casts(n.get('e') or {})
+                if tgt and tgt.get('k') == 'member' and tgt.get('name') == opt and tgt.get('cls') == 'ipr::Printer':
+                    writers.append(f'{fid} [{f["loc"].split(":")[0]}:{n.get("ln")}]')
+        if not readers_n:
+            raise AnalysisBroken(f'no use of Printer::{opt} found: the member matcher is broken')
+        ck.check(R7, 'Printer::' + opt, not writers, f'Printer::{opt} is assigned by the library in {writers[:3]}: locations are then '
+                 f'printed (or withheld) against the client\'s setting', loc=pr['loc'],
+                 detail={'uses': readers_n})
 
 
 def guarded_by_flag(body, flag):
